@@ -1,14 +1,17 @@
 import NdnGen.C06
 import NdnProofs.Lemmas.Framing
 import NdnProofs.Lemmas.Receive
+import NdnProofs.Lemmas.ReceiveBytes
 /-!
   # C06 — receive path: exact stream framing, and no failure on any delivered bytes
 
   Specification-level notions used below (none mentions the implementation):
   * a packet is a pair (type, value) with both numbers below 2^64; its wire form is `tlv`;
     a stream is the concatenation of wire forms, possibly followed by a proper prefix of one more;
-  * `raisable`: the exception classes the byte-level decoders can raise (sampled by the harness against
-    the real decoders - the decoders themselves are property C07);
+  * `raisable`: the exception classes the byte-level decoders can raise.  For the decoder *models* of
+    property C07 this is proved for every byte string (`bytes_decoders_raise_only`, from
+    `Ndn.C07.shipped_decoders_error_classes`); that those models are the real decoders is C07's
+    correspondence, re-sampled by this property's harness on its own malformed stream;
   * `Guards.safe`: every raisable class is named by the `except` protecting each decoding step, a missing
     Fragment is handled, and the Nack table lookup is protected.
 -/
@@ -522,5 +525,98 @@ theorem udp_total (data : Bytes) : ∃ r, datagramReceived Gen.C06.udpCaught dat
 example : datagramReceived Gen.C06.udpCaught [] = .ok none := by rfl
 example : datagramReceived Gen.C06.udpCaught [253, 1] = .ok none := by rfl
 example : datagramReceived Gen.C06.udpCaught [5, 0] = .ok (some (5, [5, 0])) := by rfl
+
+/-! ## (b, continued) byte-level instantiation: the decoders are no longer black boxes
+
+  `Ndn.RecvBytes.bytesDecoders H` (NdnModel/ReceiveBytes.lean) computes the four decoder outcomes of the
+  pipeline from the delivered bytes with the decoder models of property C07:
+  `decodePacket Gen.C07.lp 100 true false [82, 83]` (parse_lp_packet_v2), `parseTlNum` on the Fragment,
+  `decodePacket Gen.C07.interest 5 …` inside `Ndn.Packet.parseInterest` (parse_interest + the digest pointers
+  `params_sha256_checker` reads), `decodePacket Gen.C07.data 6 …` (parse_data); `H` stands for SHA-256. -/
+
+open Ndn.RecvBytes in
+/-- the exception classes C07 documents for the decoders (`Ndn.Codec.docErr`) are exactly C06's `raisable`
+    set (the two properties share the type `PyErr` of exception classes, so no translation is involved) -/
+theorem docErr_iff_raisable (e : PyErr) : Ndn.Codec.docErr e = true ↔ e ∈ raisable := by
+  cases e <;> simp [Ndn.Codec.docErr, raisable]
+
+open Ndn.RecvBytes in
+/-- **bytes_decoders_raise_only.** On EVERY byte string each of the four byte-level decoder models returns a
+    value or raises a class of `raisable` - the hypothesis of `receive_total`, which was an assumption about
+    black boxes there, is a theorem for these decoders (C07: `shipped_decoders_error_classes`,
+    `parseAndCheckTl_doc`, `parseTlNum_doc`). -/
+theorem bytes_decoders_raise_only (H : Bytes → Bytes) : RaisesOnly (bytesDecoders H) raisable :=
+  ⟨fun w e h => (docErr_iff_raisable e).1 (lpDec_doc w e h),
+   fun w e h => (docErr_iff_raisable e).1 (tlDec_doc w e h),
+   fun w e h => (docErr_iff_raisable e).1 (intDec_doc H w e h),
+   fun w e h => (docErr_iff_raisable e).1 (dataDec_doc H w e h)⟩
+
+open Ndn.RecvBytes in
+/-- **receive_bytes_total.** For EVERY byte string `w` handed to `_receive` with ANY type number `typ`
+    (consistent with the bytes or not), in EVERY state of the pending-Interest / handler tables, for both
+    front-ends and every hash function `H`: the pipeline with the byte-level decoders returns normally.
+
+    What is proved for all byte strings, with no sampled ingredient: (1) the envelope decoder, the Type
+    reader applied to the Fragment, the Interest decoder and the Data decoder - as modelled in property C07
+    over the schemas regenerated from the live packet classes - raise only DecodeError, IndexError,
+    ValueError, struct.error or TypeError (`bytes_decoders_raise_only`); (2) every one of these classes is
+    named by the `except` tuple found in the source at every decoding step, a missing Fragment is handled and
+    the Nack lookup is guarded (`gen_safe`, tables regenerated from the live source); (3) hence nothing
+    leaves `_receive` (`receive_total_of_safe`).
+
+    What still rests on correspondence (model = code, differential testing on every run): that
+    `decodePacket` / `parseTlNum` / `parseInterest` behave as parse_lp_packet_v2 / parse_tl_num /
+    parse_interest / parse_data including the exception class (C07's, C01's and C02's correspondence checks,
+    and this property's harness, which runs `receiveBytes` next to the real `_receive` on every packet of
+    its malformed stream); that `receive` is the control flow of `_receive` / `_on_nack` / `_on_data` /
+    `_on_interest` (this property's correspondence); and that `params_sha256_checker`, the validators and
+    the handlers do not raise. -/
+theorem receive_bytes_total (H : Bytes → Bytes) (st : State) (typ : Nat) (w : Bytes) :
+    (∃ res, receiveBytes Gen.C06.v2 H st typ w = .ok res) ∧ (∃ res, receiveBytes Gen.C06.v1 H st typ w = .ok res) :=
+  receive_total (bytesDecoders H) (bytes_decoders_raise_only H) st typ w
+
+open Ndn.RecvBytes in
+/-- the frame and invariant theorems apply verbatim to the byte-level pipeline: a packet that completes
+    and invokes nothing (in particular every undecodable one) leaves the tables as they were -/
+theorem receive_bytes_frame (g : Guards) (H : Bytes → Bytes) (st st' : State) (typ : Nat) (w : Bytes)
+    (effs : List Effect) (hwf : st.WF) (h : receiveBytes g H st typ w = .ok (st', effs)) :
+    st'.WF ∧ st'.fib = st.fib ∧ (effs = [] → st' = st) ∧
+    (∀ n node p, (n, node) ∈ st.pit → p ∈ node → p.id ∉ completedIds effs →
+      ∃ node', (n, node') ∈ st'.pit ∧ p ∈ node') :=
+  ⟨receive_preserves_wf g _ st typ w _ hwf h, receive_frame g _ st st' typ w effs hwf h⟩
+
+/-! non-vacuity: the byte-level pipeline does the work on real packets (bytes produced by the library's
+    own encoders) and drops malformed ones. `/a/b` = `[[8,1,97],[8,1,98]]`. -/
+section
+open Ndn.RecvBytes
+
+/-- a Nack envelope (reason 150) around the Interest `/a/b` fails the Interest pending under `/a/b` -/
+example : receiveBytes Gen.C06.v2 (fun _ => []) ⟨[([[8, 1, 97], [8, 1, 98]], [⟨0, false, []⟩])], [[[8, 1, 97]]]⟩ 100
+    [100, 31, 253, 3, 32, 5, 253, 3, 33, 1, 150, 80, 20, 5, 18, 7, 6, 8, 1, 97, 8, 1, 98, 10, 4, 1, 2, 3, 4, 12, 2, 15, 160]
+    = .ok (⟨[], [[[8, 1, 97]]]⟩, [.nacked 0 150]) := by rfl
+/-- an Interest `/a/b` inside an envelope carrying PIT token 01020304 invokes the handler at `/a` with the token -/
+example : receiveBytes Gen.C06.v2 (fun _ => []) ⟨[], [[[8, 1, 97]]]⟩ 100
+    [100, 28, 98, 4, 1, 2, 3, 4, 80, 20, 5, 18, 7, 6, 8, 1, 97, 8, 1, 98, 10, 4, 1, 2, 3, 4, 12, 2, 15, 160]
+    = .ok (⟨[], [[[8, 1, 97]]]⟩, [.invoke [[8, 1, 97]] (some [1, 2, 3, 4])]) := by rfl
+/-- a signed Data `/a/b` satisfies the pending Interest (legacy front-end) -/
+example : receiveBytes Gen.C06.v1 (fun _ => []) ⟨[([[8, 1, 97], [8, 1, 98]], [⟨0, false, []⟩])], []⟩ 6
+    [6, 62, 7, 6, 8, 1, 97, 8, 1, 98, 20, 6, 24, 1, 0, 25, 1, 10, 21, 5, 67, 47, 97, 47, 98, 22, 3, 27, 1, 0, 23, 32,
+     185, 156, 123, 20, 181, 134, 61, 75, 214, 99, 228, 211, 100, 214, 125, 74, 33, 241, 57, 100, 246, 124, 150, 222,
+     184, 187, 129, 112, 57, 153, 170, 242]
+    = .ok (⟨[], []⟩, [.satisfied 0]) := by rfl
+/-- each decoding step does raise on some bytes: envelope (ValueError: FragIndex of width 0), Type of the
+    Fragment (struct.error: `fd` alone), Interest (DecodeError: no Name), Data (IndexError: truncated) -/
+example : lpDec [100, 2, 82, 0] = .error .valueError ∧
+    (lpDec [100, 3, 80, 1, 253] = .ok ⟨none, none, some [253]⟩ ∧ tlDec [253] = .error .structError) ∧
+    intDec (fun _ => []) [5, 0] = .error .decodeError ∧ dataDec (fun _ => []) [6, 9, 7] = .error .indexError :=
+  ⟨by rfl, ⟨by rfl, by rfl⟩, by rfl, by rfl⟩
+/-- … and all of them are dropped, with a pending Interest and a handler present -/
+example : ∀ w ∈ ([[100, 2, 82, 0], [100, 3, 80, 1, 253], [5, 0], [6, 9, 7], [], [100, 0]] : List Bytes), ∀ typ ∈ [5, 6, 100],
+    receiveBytes Gen.C06.v2 (fun _ => []) ⟨[([[8, 1, 97]], [⟨0, true, []⟩])], [[]]⟩ typ w
+      = .ok (⟨[([[8, 1, 97]], [⟨0, true, []⟩])], [[]]⟩, []) := by
+  intro w hw typ ht
+  simp only [List.mem_cons, List.not_mem_nil, or_false] at hw ht
+  rcases hw with rfl | rfl | rfl | rfl | rfl | rfl <;> rcases ht with rfl | rfl | rfl <;> rfl
+end
 
 end Ndn.C06
